@@ -94,18 +94,19 @@ def insn_bounds(data):
 
 
 class Shape:
-    def __init__(self, kind="plain", funcs=True, cfi="none", ann="none", data_follows=False, callee2=False, bare_b1=False, gap=False):
+    def __init__(self, kind="plain", funcs=True, cfi="none", ann="none", data_follows=False, callee2=False, bare_b1=False, gap=False, pe=False):
+        self.pe = pe                    # a PE module instead of an ELF one (same ISA, same bytes)
         self.kind, self.funcs, self.cfi, self.ann, self.data_follows, self.callee2 = kind, funcs, cfi, ann, data_follows, callee2
         self.gap = gap                  # two bytes covered by NO block at the start of the byte interval (the first block is not at interval offset 0)
         self.bare_b1 = bare_b1          # b1 carries no label of its own (labels reach it only by sliding from a deleted neighbour)
 
     def __repr__(self):
         return "shape(kind=%s funcs=%s cfi=%s ann=%s%s%s)" % (self.kind, self.funcs, self.cfi, self.ann, " data" if self.data_follows else "",
-                                                             (" callee-of-two-blocks" if self.callee2 else "") + (" b1-without-labels" if self.bare_b1 else "") + (" leading-gap" if self.gap else ""))
+                                                             (" callee-of-two-blocks" if self.callee2 else "") + (" b1-without-labels" if self.bare_b1 else "") + (" leading-gap" if self.gap else "") + (" PE" if self.pe else ""))
 
 
 def build(shape):
-    ir, m = create_test_module(gtirb.Module.FileFormat.ELF, gtirb.Module.ISA.X64)
+    ir, m = create_test_module(gtirb.Module.FileFormat.PE if getattr(shape, "pe", False) else gtirb.Module.FileFormat.ELF, gtirb.Module.ISA.X64)
     _, bi = add_text_section(m, address=0x1000)
     if shape.gap:
         bi.contents = b"\xcc\xcc"
